@@ -130,7 +130,13 @@ func (c10Sys) Step(s *c10State, l engine.Letter) (*c10State, string, *engine.Vio
 		}
 		return c, "ok", nil
 	case c10Create:
-		res := s.w.Deliver(ctx, ophosttypes.NewMsgCreateBridge(world.Addr("creator").String(), world.BridgeConfig("proposer", "challenger", 10*time.Second)))
+		cfg := world.BridgeConfig("proposer", "challenger", 10*time.Second)
+		if n, err := s.w.HK.GetNextBridgeId(ctx); err == nil && n == 3 {
+			// the third bridge belongs to a rollup that starts submitting late and seldom (nothing of that
+			// is about deposits)
+			cfg.SubmissionStartHeight, cfg.SubmissionInterval = 5_000_000, 1000*time.Hour
+		}
+		res := s.w.Deliver(ctx, ophosttypes.NewMsgCreateBridge(world.Addr("creator").String(), cfg))
 		if !res.OK() {
 			return c, "rejected", viol("harness-expectation", "CreateBridge failed: %v", res.Err)
 		}
